@@ -18,6 +18,7 @@ import Model.Fmt.Writer
 import Model.Spec.RoundTrip
 import Proofs.Lemmas.C01ReaderWF
 import Proofs.Lemmas.C01Num
+import Proofs.Lemmas.C01Shortest
 
 namespace C01
 open Fmt Spec.RoundTrip Spec.FmtFloat
@@ -369,6 +370,46 @@ theorem roundtrip_text_spec_numbers (uc : UC) (tidy : UInt64 → Bytes → UInt6
       (observeWritten (readAll (specOracles uc tidy) fn t)).map Obs.abs :=
   roundtrip_text (specOracles uc tidy) specParams fn fn' t
     (numOKFor_of_check uc tidy _ hnum) hcr
+
+/-! ## 5d. No existence hypothesis on numbers -/
+
+/-- **shortest_decimal_exists_17.** Every finite non-zero float64 has a shortest decimal
+`m·10^e` (least number of significant digits among the decimals in its rounding interval,
+nearest to the exact value among those); it has at most 17 significant digits; and it reads
+back to exactly the same bits. -/
+theorem shortest_decimal_exists_17 (x : F64.Bits) (hx : F64.isFinite x = true) (zx : F64.isZero x = false) :
+    ∃ (m : Nat) (e : Int), m < 10 ^ 17 ∧ F64.IsShortestDecimal x m e ∧ F64.ofDecimal (F64.signBit x) m e = x :=
+  shortest_exists_17 x hx zx
+
+/-- **roundtrip_history_go.** The round trip with the reader's numbers instantiated by C03's
+MODELS of `bytesconv.Atoi` and of the reader's `atof` (`C03.oracles`), for ANY writer number text
+`P` of which only `GoFmtOK uc P` is assumed — the correspondence-level fact that Go's `%v` output
+for a finite non-zero value is a plain decimal numeral, one field, with the sign of the value and
+a value inside its rounding interval (and `NaN`, `+Inf`, `-Inf`, `0`, `-0` for the special
+values). No existence or digit-count hypothesis: that such a numeral exists with at most 17
+digits is `shortest_decimal_exists_17`; that it reads back is `reads_back_reader`. Iteration
+counts are `int`s (`inInt64`). -/
+theorem roundtrip_history_go (uc : UC) (tidy : UInt64 → Bytes → UInt64 × Bytes) (P : WParams)
+    (hgo : GoFmtOK uc P) (fn : Bytes) (h : List Rec) (hwf : WF (C03.oracles uc tidy) h = true)
+    (hit : ∀ r, Rec.result r ∈ h → inInt64 r.iters) :
+    (observeRead (readAll (C03.oracles uc tidy) fn (render (Writer.writeAll P h)))).map Obs.abs =
+      (observeWritten h).map Obs.abs :=
+  roundtrip_history (C03.oracles uc tidy) P fn h (numOKFor_go uc tidy P hgo h hit) hwf
+
+/-- **roundtrip_text_go.** For EVERY text whose parsed `key: value` values do not end in CR:
+parse (C03's reader models), write (any `%v` text satisfying `GoFmtOK`), parse again — the
+second parse observes exactly what the first delivered. All finite values, NaN and ±Inf are
+covered with no hypothesis on the numbers of the text: the iteration counts the reader delivered
+are in range (`iters_inInt64`), every measurement's text reads back (`numGood_go`). -/
+theorem roundtrip_text_go (uc : UC) (tidy : UInt64 → Bytes → UInt64 × Bytes) (P : WParams)
+    (hgo : GoFmtOK uc P) (fn fn' t : Bytes) (hcr : NoCRValue (C03.oracles uc tidy) fn t) :
+    (observeRead (readAll (C03.oracles uc tidy) fn'
+        (render (Writer.writeAll P (readAll (C03.oracles uc tidy) fn t))))).map Obs.abs =
+      (observeWritten (readAll (C03.oracles uc tidy) fn t)).map Obs.abs := by
+  apply roundtrip_text (C03.oracles uc tidy) P fn fn' t _ hcr
+  apply numOKFor_go uc tidy P hgo
+  intro r hr
+  exact iters_inInt64 (C03.oracles uc tidy) (fun _ => rfl) _ _ r hr
 
 /-! ## 6. Non-vacuity -/
 
